@@ -1,0 +1,110 @@
+//! Read-only views of the subset plan and direct entry points to the per-glyph
+//! rewriting code, for the out-of-tree verification harness.
+//!
+//! Compiled only with `--cfg googlefonts_fontations_verif`; adds no behaviour.
+use crate::{glyf_closure_glyphs, Plan, SubsetFlags};
+use write_fonts::read::{
+    collections::IntSet, tables::glyf::Glyph, types::GlyphId, FontData, FontRead, FontRef,
+    TableProvider,
+};
+
+/// A plain-data copy of the parts of [`Plan`] that every table subsetter relies on.
+#[derive(Clone, Debug, Default, PartialEq, Eq)]
+pub struct PlanView {
+    pub unicodes: Vec<u32>,
+    pub glyphset_gsub: Vec<u32>,
+    pub glyphset_colred: Vec<u32>,
+    pub glyphset: Vec<u32>,
+    /// (new, old) in list order
+    pub new_to_old_gid_list: Vec<(u32, u32)>,
+    /// (old, new) sorted by old
+    pub glyph_map: Vec<(u32, u32)>,
+    /// (new, old) sorted by new
+    pub reverse_glyph_map: Vec<(u32, u32)>,
+    /// (codepoint, new gid) in list order
+    pub unicode_to_new_gid_list: Vec<(u32, u32)>,
+    pub num_output_glyphs: usize,
+    pub font_num_glyphs: usize,
+}
+
+pub fn plan_view(plan: &Plan) -> PlanView {
+    let set = |s: &IntSet<GlyphId>| s.iter().map(|g| g.to_u32()).collect::<Vec<_>>();
+    let mut glyph_map: Vec<(u32, u32)> = plan
+        .glyph_map
+        .iter()
+        .map(|(k, v)| (k.to_u32(), v.to_u32()))
+        .collect();
+    glyph_map.sort();
+    let mut reverse_glyph_map: Vec<(u32, u32)> = plan
+        .reverse_glyph_map
+        .iter()
+        .map(|(k, v)| (k.to_u32(), v.to_u32()))
+        .collect();
+    reverse_glyph_map.sort();
+    PlanView {
+        unicodes: plan.unicodes.iter().collect(),
+        glyphset_gsub: set(&plan.glyphset_gsub),
+        glyphset_colred: set(&plan.glyphset_colred),
+        glyphset: set(&plan.glyphset),
+        new_to_old_gid_list: plan
+            .new_to_old_gid_list
+            .iter()
+            .map(|(n, o)| (n.to_u32(), o.to_u32()))
+            .collect(),
+        glyph_map,
+        reverse_glyph_map,
+        unicode_to_new_gid_list: plan
+            .unicode_to_new_gid_list
+            .iter()
+            .map(|(c, g)| (*c, g.to_u32()))
+            .collect(),
+        num_output_glyphs: plan.num_output_glyphs,
+        font_num_glyphs: plan.font_num_glyphs,
+    }
+}
+
+/// A plan that carries nothing but an old->new glyph map and flags (what `subset_glyph` reads).
+pub fn plan_with_glyph_map(old_to_new: &[(u32, u32)], flags: SubsetFlags) -> Plan {
+    let mut plan = Plan {
+        subset_flags: flags,
+        ..Default::default()
+    };
+    for (old, new) in old_to_new {
+        plan.glyph_map.insert(GlyphId::new(*old), GlyphId::new(*new));
+    }
+    plan
+}
+
+/// Parse one glyph record and run the per-glyph rewrite (`glyf_loca::subset_glyph`) on it.
+pub fn subset_glyph_bytes(glyph_data: &[u8], plan: &Plan) -> Result<Vec<u8>, String> {
+    let glyph = Glyph::read(FontData::new(glyph_data)).map_err(|e| e.to_string())?;
+    Ok(crate::glyf_loca::verif::subset_glyph(&glyph, plan))
+}
+
+pub fn trim_simple_glyph_padding(glyph_data: &[u8], num_coords: u16) -> usize {
+    crate::glyf_loca::verif::trim_simple_glyph_padding(glyph_data, num_coords)
+}
+
+pub fn padded_size(len: usize) -> usize {
+    crate::glyf_loca::verif::padded_size(len)
+}
+
+/// One top-level call of the composite closure; returns the remaining operation count.
+pub fn glyf_closure(
+    font: &FontRef,
+    gid: u32,
+    gids_to_retain: &mut IntSet<GlyphId>,
+    operation_count: i32,
+    depth: u8,
+) -> Option<i32> {
+    let loca = font.loca(None).ok()?;
+    let glyf = font.glyf().ok()?;
+    Some(glyf_closure_glyphs(
+        &loca,
+        &glyf,
+        GlyphId::new(gid),
+        gids_to_retain,
+        operation_count,
+        depth,
+    ))
+}
